@@ -333,6 +333,18 @@ func init() {
 		return fr.i.strCompare(args[0], args[1])
 	}
 	E["strings.Compare"] = E["internal/bytealg.CompareString"]
+	E["internal/bytealg.IndexString"] = func(fr *frame, args []value) value {
+		if a, ok := args[0].(string); ok {
+			if b, ok := args[1].(string); ok {
+				return strings.Index(a, b)
+			}
+		}
+		return fr.i.indexStr(strBytes(args[0]), strBytes(args[1]))
+	}
+	E["internal/bytealg.Index"] = func(fr *frame, args []value) value {
+		return fr.i.indexStr(args[0].([]value), args[1].([]value))
+	}
+	E["internal/bytealg.Cutover"] = func(fr *frame, args []value) value { return int((asInt64(args[0]) + 16) / 8) }
 	E["internal/stringslite.Clone"] = func(fr *frame, args []value) value { return args[0] }
 	E["strings.Clone"] = func(fr *frame, args []value) value { return args[0] }
 	E["bytes.IndexByte"] = E["internal/bytealg.IndexByte"]
@@ -673,6 +685,16 @@ func (i *interpreter) indexByte(bs []value, c value) value {
 	ct := tc.toTerm(c)
 	for k, b := range bs {
 		if i.decide(tc.eq(tc.toTerm(b), ct)) {
+			return k
+		}
+	}
+	return -1
+}
+
+func (i *interpreter) indexStr(a, b []value) value {
+	n := len(b)
+	for k := 0; k+n <= len(a); k++ {
+		if i.decide(i.strEqTerm(mkstr(a[k:k+n]), mkstr(b))) {
 			return k
 		}
 	}
